@@ -485,6 +485,25 @@ func checkStalenessHasReason(p *core.Prog, r *core.Result) {
 		}) {
 			return "stamp differs from the recorded one"
 		}
+		// dry runs only: the dependency was visited by this very dry run and is assumed to change
+		if fs.Find(func(c ssa.Value, v bool) bool { return v && projField(c, "dryrun") }) && fs.Find(func(c ssa.Value, v bool) bool {
+			b, ok := c.(*ssa.BinOp)
+			if !ok || !v || b.Op != token.EQL {
+				return false
+			}
+			isRun := func(x ssa.Value) bool { return core.LoadOfField(x, pkgRoot, "Project", "run") }
+			isMark := func(x ssa.Value) bool {
+				u, ok := x.(*ssa.UnOp)
+				if !ok || u.Op != token.MUL {
+					return false
+				}
+				o, _ := core.FieldOf(u.X)
+				return o != nil && o.Obj().Name() == "runTarget"
+			}
+			return isRun(b.X) && isMark(b.Y) || isRun(b.Y) && isMark(b.X)
+		}) {
+			return "assumed to change by this dry run (dry runs only)"
+		}
 		// a helper predicate every true-returning path of which carries one of the reasons
 		if depth < 2 {
 			for f := range fs {
@@ -535,7 +554,7 @@ func checkStalenessHasReason(p *core.Prog, r *core.Result) {
 			construct := fmt.Sprintf("%s#marks-out-of-date-%d", fname(m.DepsFn), n)
 			// the marking edge: facts on the edge, or (an || chain evaluated before a shared marking block) on some
 			// path into it - each incoming path of the marking block must carry a reason
-			why := reason(efs[i])
+			why := reason(p.RefineFacts(efs[i]))
 			if why == "" {
 				pred := car.phi.Block().Preds[i]
 				all := len(pred.Preds) > 0
@@ -546,7 +565,7 @@ func checkStalenessHasReason(p *core.Prog, r *core.Result) {
 							si = k
 						}
 					}
-					if reason(p.EdgeFacts(q, si)) == "" {
+					if reason(p.RefineFacts(p.EdgeFacts(q, si))) == "" {
 						all = false
 					}
 				}
